@@ -167,7 +167,13 @@ func metricsOps(rt *rapid.T, m, peer *memmetrics.RTMetrics) op {
 	case 3:
 		return func() { _ = m.StatusCodesCounts() }
 	case 4:
-		return func() { _, _ = m.LatencyHistogram() }
+		// the answer is read, as the breaker's latency predicates and any dashboard do, after the call has returned
+		return func() {
+			if h, err := m.LatencyHistogram(); err == nil && h != nil {
+				_ = h.LatencyAtQuantile(50)
+				_ = h.ValueAtQuantile(99)
+			}
+		}
 	case 5:
 		// a snapshot is taken and read while the live metrics go on recording
 		return func() {
